@@ -25,8 +25,10 @@ Inductive case :=
 | CaseSched (m0 wild0 w : list str) (steps : list sstep) (m1 wild1 : list str) (file : option str)
   (* the background re-read of the directory (refreshRemote) landing between a call's
      mutation and its persist(): memory and file before, the call with its return value,
-     memory and file after everything has completed *)
-| CaseRefresh (m0 wild0 w : list str) (file0 : option str) (o : op) (ret : N) (m1 wild1 : list str) (file1 : option str)
+     memory and file after everything has completed; [downloads] = the *.tmp list files
+     lying in the directory at that moment *)
+| CaseRefresh (m0 wild0 w : list str) (file0 : option str) (downloads : list str) (o : op) (ret : N)
+              (m1 wild1 : list str) (file1 : option str)
   (* restart: configured whitelist/blocklist + directory files in walk order -> memory of the fresh list;
      mem_m/mem_wild is the memory of the list that wrote the files *)
 | CaseReload (whitelist blocklist : list str) (files : list str) (mem_m mem_wild : list str) (re_m re_wild re_w : list str)
@@ -190,11 +192,11 @@ Definition check_case (c : case) : bool :=
       let '(ok, s) := run_sched steps (mk_sys (mk_bl m0 wild0 w) 0 0 None []) in
       ok && same_set (bm (s_mem s)) m1 && same_set (bwild (s_mem s)) wild1 &&
       is_nil (s_pending s) && opt_str_eqb (s_local s) file
-  | CaseRefresh m0 wild0 w file0 o ret m1 wild1 file1 =>
+  | CaseRefresh m0 wild0 w file0 downloads o ret m1 wild1 file1 =>
       let s0 := mk_sys (mk_bl m0 wild0 w) 0 0 file0 [] in
       let b' := snd (apply_op o (s_mem s0)) in
       let '(ret', s1) := sys_mutate o (bm b') (bwild b') s0 in
-      let s3 := sys_persist 0 (sys_refresh s1) in
+      let s3 := sys_persist 0 (sys_refresh downloads s1) in
       (ret =? ret') && same_set (bm (s_mem s3)) m1 && same_set (bwild (s_mem s3)) wild1 &&
       match s_local s3, file1 with
       | None, None => true
@@ -274,10 +276,24 @@ Definition spec_case (c : case) : bool :=
       | Some f => file_is_snapshot m1 wild1 f
       | None => negb (existsb (fun st => match st with SMut _ ex wi => negb (is_nil ex && is_nil wi) | _ => false end) steps)
       end
-  | CaseRefresh m0 wild0 w file0 o ret m1 wild1 file1 =>
-      (* every call has returned, nothing is in flight: the file is the memory *)
-      if ret =? 0 then opt_str_eqb file0 file1 && same_set m0 m1 && same_set wild0 wild1
-      else match file1 with Some f => file_is_snapshot m1 wild1 f | None => false end
+  | CaseRefresh m0 wild0 w file0 downloads o ret m1 wild1 file1 =>
+      (* every call has returned, nothing is in flight: with no remote list the file is the
+         memory; with one, the memory is the file plus what the download lists (remote
+         entries reach `local` with the next API call, by design) *)
+      if is_nil downloads
+      then (if ret =? 0 then opt_str_eqb file0 file1 && same_set m0 m1 && same_set wild0 wild1
+            else match file1 with Some f => file_is_snapshot m1 wild1 f | None => false end)
+      else match file1 with
+           | Some f =>
+               let ls := List.tl (split_lines f) in
+               let fm := filter (fun l => negb (has_prefix persist_wildp l)) ls in
+               let fw := List.map (skipn 2) (filter (has_prefix persist_wildp) ls) in
+               let dnames := List.map canonical (List.concat (List.map fields (List.concat (List.map split_lines downloads)))) in
+               subset fm m1 && subset fw wild1 &&
+               forallb (fun e => mem e fm || mem e dnames) m1 &&
+               forallb (fun e => mem e fw || mem (persist_wildp ++ e) dnames) wild1
+           | None => ret =? 0
+           end
   | CaseReload whitelist blocklist files mem_m mem_wild re_m re_wild re_w =>
       (* the reloaded list blocks exactly the names the memory that was persisted blocks *)
       same_set (whitelist_of whitelist) re_w &&
